@@ -44,3 +44,129 @@ def gen_source(rng, features=(), size=10):
         if out is not None:
             return out
     return None
+
+
+# ============================================================================ scenario modules
+# Shapes harness/c15_gen does not produce (each is a position class of its own for completion / go-to-definition):
+#   * names imported from a module that EXISTS in the project (`from hlp import ...`, star import), whose
+#     definitions sit on assorted lines of that module;
+#   * a bracketed expression inside a method that continues on a line indented less than the def (valid Python);
+#   * a comparison `name == e` / `name >= e` as a call argument where the callee has a parameter spelled `name`
+#     and `name` is a local of the caller;
+#   * attribute access with blanks around the dot (`box . size`) and a chain continued on the next line inside
+#     parentheses, on a receiver whose class is statically evident.
+HELPER_MODULE = "hlp"
+HELPER_SOURCE = (
+    '"""helper module of the C20 scenario stream"""\n'      # 1
+    "alto = 1\n"                                              # 2
+    "\n"
+    "\n"
+    "def alfa(items):\n"                                      # 5
+    "    return sum(items)\n"
+    "\n"
+    "\n"
+    "class Xanadu:\n"                                         # 9
+    "    depth = 2\n"
+    "\n"
+    "    def dive(self):\n"
+    "        return self.depth\n"
+    "\n"
+    "\n"
+    "def fold(al, xa=0):\n"                                   # 16
+    "    return al + xa\n"
+    "\n"
+    "# spacer\n"
+    "\n"
+    "\n"
+    "def isay(text):\n"                                       # 22
+    "    return text\n"
+    "\n"
+    "\n"
+    "\n"
+    "\n"
+    "def xact(fo):\n"                                         # 28
+    "    return fo\n"
+    "_hidden = 0\n"
+)
+HELPER_NAMES = ["alto", "alfa", "Xanadu", "fold", "isay", "xact"]
+_S_POOL = ["al", "alp", "xa", "xab", "isa", "fo", "ka", "va"]
+_S_CLASSES = ["Cl", "Cla", "Kit"]
+_S_ATTRS = ["size", "sift", "grow", "go", "isle"]
+
+
+def gen_scenario(rng, star=None):
+    """Returns (source, uses_star_import)."""
+    for _ in range(30):
+        star = (rng.random() < 0.3) if star is None else star
+        L = []
+
+        def noise():
+            r = rng.random()
+            if r < 0.25:
+                L.append("")
+            elif r < 0.35:
+                L.append("# note " + rng.choice(_S_POOL))
+
+        imported = []
+        if star:
+            L.append("from %s import *" % HELPER_MODULE)
+            imported = list(HELPER_NAMES)
+        else:
+            picks = rng.sample(HELPER_NAMES, rng.randint(2, 4))
+            L.append("from %s import %s" % (HELPER_MODULE, ", ".join(picks)))
+            imported = picks
+        noise()
+        g1, g2, p1, p2, loc, q, v, fl = rng.sample(_S_POOL, 8)
+        cls = rng.choice(_S_CLASSES)
+        a1, a2, m1, m2 = rng.sample(_S_ATTRS, 4)
+        inst, t1, t2, callee, caller = "box", "first", "chain", "check", "run"
+        L.append("%s = %s(%d)" % (g1, rng.choice([x for x in imported if x[0].islower() and x != "alto"] or ["len"]),
+                                 rng.randint(0, 9)))
+        noise()
+        sections = []
+        dedent = rng.choice([0, 2, 4, 6])
+        sections.append([
+            "class %s:" % cls,
+            "    %s = 1" % a1,
+            "",
+            "    def %s(self, %s, %s):" % (m1, p1, p2),
+            "        %s = %s + 1" % (loc, p1),
+            "        return max(",
+            " " * dedent + "%s, len(%s)," % (loc, p2),
+            " " * rng.choice([0, 4, 8]) + "%s" % p1,
+            "        )",
+            "",
+            "    def %s(self, %s):" % (m2, p1),
+            "        self.%s = %s" % (a2, p1),
+            "        return self",
+        ])
+        op = rng.choice(["==", ">=", "!=", "<="])
+        sections.append([
+            "def %s(%s, %s):" % (callee, fl, q),
+            "    return %s" % fl,
+            "",
+            "def %s(%s):" % (caller, v),
+            "    %s = len(%s)" % (q, v),
+            "    %s = %s(%s %s 10, %s)" % (g2, callee, q, op, q),
+            "    return %s(True, %s %s 10)" % (callee, q, op),
+        ])
+        rng.shuffle(sections)
+        for sec in sections:
+            L.extend(sec)
+            noise()
+            if rng.random() < 0.6 and imported:
+                L.append("%s = %s" % (rng.choice([t1, t2, g2]), rng.choice(imported)))
+        L.append("%s = %s()" % (inst, cls))
+        L.append("%s = %s %s %s" % (t1, inst, rng.choice([". ", " .", " . ", " .  "]), a1))
+        L.append("%s = (%s." % (t2, inst))
+        L.append(" " * rng.choice([4, 9, 0]) + "%s(1)." % m2)
+        L.append(" " * rng.choice([4, 9]) + "%s(2, 3))" % m1)
+        if rng.random() < 0.5:
+            L.append("%s(%s)" % (caller, rng.choice(imported)))
+        src = "\n".join(L) + "\n"
+        try:
+            compile(src, "m.py", "exec")
+        except (SyntaxError, ValueError):
+            continue
+        return src, star
+    return None, False
